@@ -93,7 +93,7 @@ class BstParser(Scanner):
     LBRACE = Literal('{')
     RBRACE = Literal('}')
     STRING = Pattern('"[^\"]*"', 'string')
-    INTEGER = Pattern(r'#-?\d+', 'integer')
+    INTEGER = Pattern(r'#-?[0-9]+', 'integer')
     NAME = Pattern(r'[^#\"\{\}\s]+', 'name')
 
     COMMANDS = {
@@ -108,6 +108,10 @@ class BstParser(Scanner):
         'SORT': 0,
         'STRINGS': 1,
     }
+
+    # command names are ASCII words in any letter case; str.upper() would also
+    # accept other letters that upper-case to them ('\u017fort'.upper() == 'SORT')
+    ASCII_UPPER = dict(zip(range(ord('a'), ord('z') + 1), range(ord('A'), ord('Z') + 1)))
 
     LITERAL_TYPES = {
         STRING: process_string_literal,
@@ -138,7 +142,7 @@ class BstParser(Scanner):
     def parse_command(self):
         command_name = self.required([self.NAME], 'BST command', allow_eof=True).value
         try:
-            arity = self.COMMANDS[command_name.upper()]
+            arity = self.COMMANDS[command_name.translate(self.ASCII_UPPER)]
         except KeyError:
             raise TokenRequired('BST command', self)
         yield command_name
